@@ -94,3 +94,36 @@ Require RV.Gen.Sites RV.Model.SiteMap RV.Proofs.SitesFacts.
 Theorem C01_literals_reviewed : RV.Model.SiteMap.literals_ok RV.Model.SiteMap.files_C01.
 Proof. apply RV.Proofs.SitesFacts.literals_okb_sound. vm_compute. reflexivity. Qed.
 Print Assumptions C01_literals_reviewed.
+
+(* ---- the verification core AS TRANSLATED FROM THE SOURCE on this run ----
+   Gen/Code.v (by /verif/rs2coq from src/bin/roughenough-client.rs): ResponseHandler::new,
+   extract_time, validate_merkle, validate_midpoint, validate_dele, validate_srep — the nested
+   decodes, every map[&Tag::X] (panics on a missing tag), every read_uNN().unwrap(), the asserts on
+   the Merkle root and on MINT <= MIDP <= MAXT, the two signature checks with their context strings
+   and the order in which all of this happens are taken from the code as written today; decoding,
+   root_from_paths and the signature verifier go through the table in rs2coq/targets.txt. *)
+Require Import RV.Model.Message RV.Model.GenSupport RV.Gen.Code RV.Proofs.CodeClient.
+
+(* it computes exactly what the hand-written model of the handler computes (a value, or a panic) *)
+Theorem C01_translated_handler_is_model :
+  forall H ev ep v pk nonce request resp,
+    ok_opt (gen_handle H ev ep v pk nonce request resp)
+    = option_map drop_index (ok_opt (handle_response H ev ep v pk nonce request resp)).
+Proof. exact gen_client_model. Qed.
+Print Assumptions C01_translated_handler_is_model.
+
+(* hence soundness holds of the code as written: whenever the translated handler returns for a
+   pinned key, the datagram is authentic for THIS request, verified is true and the time is the
+   signed midpoint *)
+Theorem C01_translated_handler_sound :
+  forall H ev ep, HashLen H ->
+  forall v pk nonce request dgram resp p3 s ns,
+    (length dgram <= 4096)%nat ->
+    receive_response v dgram = Ok resp ->
+    gen_handle H ev ep v (Some pk) nonce request resp = Ok p3 ->
+    to_time v (p3_midpoint p3) = Ok (s, ns) ->
+    authentic H ev ep v pk request nonce dgram = true
+    /\ p3_verified p3 = true
+    /\ exists midp, signed_midpoint v dgram = Some midp /\ (s, ns) = time_of v midp.
+Proof. exact gen_client_sound. Qed.
+Print Assumptions C01_translated_handler_sound.
